@@ -4,7 +4,7 @@ import math
 
 from .. import paths
 from ..loader import AnalysisError, norm_stmt
-from ..small import FoldError, fold
+from ..small import FoldError, cond_defaults, fold
 
 BASE = "covmodel/base.py"
 TOOLS = "covmodel/tools.py"
@@ -177,8 +177,8 @@ def yadrenko(ctx, rule="R02.3"):
                   "great-circle lag is replaced by the chordal distance on the sphere of radius geo_scale before the isotropic %s is evaluated" % base, "chordal")
     # lat-lon models are 3-D (+time) internally: forced in set_dim
     sd = prog.func(TOOLS, "set_dim")
-    forced = [norm_stmt(s) for s in sd.body if isinstance(s, ast.Assign) and ast.unparse(s.targets[0]) == "dim"]
-    ctx.check("dim = 3 + int(model.temporal) if model.latlon else dim" in forced, rule, TOOLS + "::set_dim", "lat-lon models are validated and used in 3 (+1) dimensions (Yadrenko construction)", "latlon-dim")
+    forced = [(t, ast.unparse(v)) for t, v in cond_defaults(sd.body, "dim")]
+    ctx.check(("model.latlon", "3 + int(model.temporal)") in forced, rule, TOOLS + "::set_dim", "lat-lon models are validated and used in 3 (+1) dimensions (Yadrenko construction)", "latlon-dim")
     # derived correlation uses |r|
     isub = prog.func(TOOLS, "_init_subclass")
     inner = {n.name: n for n in ast.walk(isub) if isinstance(n, ast.FunctionDef) and n is not isub}
